@@ -288,6 +288,7 @@ def run(ctx):
                     break
                 tr = Transform(d)
                 del _FIT_LOG[:]
+                old_before = doc_tokens(d)      # the token picture of the input, taken before the operation runs
                 st, val, added = ops.run_op(tr, thunk)
                 fit_log = list(_FIT_LOG)
                 replay = {"schema": info.name, "doc": d.to_json(), **ops.describe(name, args)}
@@ -323,7 +324,10 @@ def run(ctx):
                         # does not promise success there.)
                         ctx.violation("set_block_type-raises", f"set_block_type raised {val}", replay)
                     continue
-                old, new = doc_tokens(d), doc_tokens(tr.doc)
+                old, new = old_before, doc_tokens(tr.doc)
+                if doc_tokens(d) != old_before:
+                    ctx.violation(name, f"{name}: the document the operation started from changed (nodes other than the addressed one share what was edited)",
+                                  dict(replay, before=str(old_before)[:400], after=str(doc_tokens(d))[:400]))
                 # model: every emitted step applied to the recorded document before it gives the recorded document after it
                 for k, s in enumerate(tr.steps):
                     nxt = tr.docs[k + 1] if k + 1 < len(tr.docs) else tr.doc
